@@ -93,6 +93,46 @@ def bb_corpus():
     return c
 
 
+def split_corpus():
+    c = []
+    # Coq example C07_example_split: reserve 600, read the older chunk in between, copy 90 bytes, peek, commit, read
+    c.append(["o 100 -", "w " + "07" * 3000, "a 600", "r 70000 0", "f " + "03" * 90, "p 0", "c 90", "r 70000 0", "d"])
+    # overwrite ring: the reservation drops the oldest chunks, the owner reads in between, timed waits
+    c.append(["o 3000 o", "w " + "07" * 1000, "w " + "08" * 1000, "w " + "09" * 900, "a 2000", "r 70000 5", "p 1000", "x",
+              "f " + "0a" * 2000, "d", "c 2000", "r 70000 -1", "r 70000 3", "d"])
+    # an alloc that fails (plain ring), then life goes on
+    c.append(["o 100 n", "w " + "01" * 4000, "a 200", "f 0202", "c 2", "r 70000 0", "a 200", "f 0303", "c 2", "r 70000 7",
+              "r 70000 7", "d"])
+    # copy twice, commit less than reserved, zero-length commit
+    c.append(["o 2000 -", "a 600", "f " + "11" * 600, "f " + "22" * 40, "c 40", "a 16", "f -", "c 0", "p 2", "x", "r 10 1",
+              "r 0 1", "d"])
+    return c
+
+
+def judge_split(case, impl, mod):
+    """-> (kind, what, detail) or None"""
+    lines, crash = impl
+    if crash:
+        return ("impl-monitor", "implementation crashed / sanitizer report (rc=%s)" % crash[0], crash[1][-1500:])
+    vs, vl = W.split_to_composite(case, lines)
+    mon = W.monitor_ring if "o" in case[0].split()[2] else _c07_monitor()
+    m = mon(vs, vl)
+    d = C.first_diff(lines, mod[0])
+    if m:
+        return ("impl-monitor", "split: " + m, {"first_model_difference": d})
+    if mod[1]:
+        return ("correspondence", "model runner failed", mod[1][1])
+    if d:
+        return ("correspondence", "split: observable %d differs: impl %r model %r" % (d[0], d[1][:200], d[2][:200]),
+                {"first_difference": [d[0], d[1][:400], d[2][:400]]})
+    return None
+
+
+def _c07_monitor():
+    import importlib
+    return importlib.import_module("props.C07").monitor
+
+
 # ------------------------------------------------------------------ run
 def _ring_stats(cases, impl, stats, sizes):
     for ci, case in enumerate(cases):
@@ -131,8 +171,8 @@ def run(ctx):
     model = C.build_model(ID)
     rng = ctx.rng
     thorough = ctx.tier == "thorough" or not ctx.proof_ok
-    n_ring = 3200 if thorough else 520
-    n_bb = 800 if thorough else 110
+    n_ring = 1800 if thorough else 260
+    n_bb = 460 if thorough else 60
     stats = {"ring_ops": 0, "writes_ok": 0, "writes_failed_oversize": 0, "reads_ok": 0, "reads_enobufs": 0, "reads_empty": 0,
              "peeks": 0, "reclaims": 0, "ring_dumps": 0, "sem_mode_cases": 0, "nosem_cases": 0,
              "bb_log_calls": 0, "bb_fallback_notices": 0, "bb_dumps": 0, "bb_records_read_back": 0, "bb_gave_up_oversize": 0}
@@ -204,6 +244,48 @@ def run(ctx):
         R.cleanup_shm()
         if stop:
             break
+
+    # ---------------------------------------------------------------- split stage (C07 gaps: alloc / copy / commit apart, timed waits)
+    n_split = 320 if thorough else 30
+    kinds["split_cases"] = 0
+    stats.update({"split_ops": 0, "split_allocs": 0, "split_allocs_failed": 0, "split_timed_waits": 0})
+    scases = split_corpus()
+    for i in range(n_split):
+        scases.append(W.gen_split_case(rng, rng.choice([10, 25, 50, 90]), seqbase=i * 1000))
+    kinds["split_cases"] = len(scases)
+    samples += [{"script": [l[:120] for l in c[:12]]} for c in scases[len(split_corpus()):len(split_corpus()) + 1]]
+    stexts = ["\n".join(c) + "\n" for c in scases]
+    simpl = W.run_sharded_env(bbexe, stexts, max(1, C.NCPU // 4), None)
+    smod = W.run_sharded_env(model, stexts, max(1, C.NCPU // 2), {"C11_MODE": "split"})
+    for ci, case in enumerate(scases):
+        stats["split_ops"] += len(case)
+        stats["split_allocs"] += sum(1 for o in case if o.startswith("a "))
+        stats["split_allocs_failed"] += sum(1 for k, o in enumerate(case) if o.startswith("a ")) - \
+            sum(1 for l in simpl[ci][0] if l.startswith("ra "))
+        stats["split_timed_waits"] += sum(1 for o in case if o[0] in "rp" and o.split()[-1] != "0")
+        res.add_case(("split",) + tuple(case), sum(1 for l in simpl[ci][0] if l.startswith("ra ")) >= 1)
+        v = judge_split(case, simpl[ci], smod[ci])
+        if v is None:
+            res.traces_validated += 1
+            continue
+        kind = v[0]
+
+        def sfails(sub, kind=kind):
+            if not sub or not sub[0].startswith("o "):
+                return False
+            t = ["\n".join(sub) + "\n"]
+            j = judge_split(sub, C.run_cases(bbexe, t)[0], C.run_cases(model, t, env={"C11_MODE": "split"})[0])
+            return j is not None and j[0] == kind
+        small = C.shrink_list(case, sfails, budget=60) if len(res.violations) < 2 else case
+        t = ["\n".join(small) + "\n"]
+        im, mo = C.run_cases(bbexe, t)[0], C.run_cases(model, t, env={"C11_MODE": "split"})[0]
+        j = judge_split(small, im, mo) or v
+        res.violation(j[0], j[1], {"stage": "split", "script": small, "shrunk_from_ops": len(case),
+                                   "impl_out": [l[:200] for l in im[0]][-60:], "model_out": [l[:200] for l in mo[0]][-60:],
+                                   "detail": j[2], "replay_cmd": "./check C11 --replay <this file>"})
+        if len(res.violations) >= 8:
+            break
+    del simpl, smod
 
     # ---------------------------------------------------------------- blackbox scripts
     bcorpus = bb_corpus()
@@ -279,6 +361,8 @@ def run(ctx):
                 "above S, at the wrap point, 0..16; payload words from {0, MAGIC, DEAD, ALLOC, small ints, random}; the "
                 "contents are read back at random points (dump = non-destructive, parsed by the monitor; reads; peeks) and, in "
                 "one case of eight, after EVERY write / log call. "
+                "split (C07 gaps): the same API with alloc / copy / commit as separate calls, the owner's reads / peeks / reclaims / dumps "
+                "in between, reads and peeks with ms_timeout in {0, 1, 3, 50, 1000, -1}, plain and overwrite rings; "
                 "bb: B(size, max_line_length) then log calls (function names 1..40 / 100..400 bytes, message lengths around "
                 "the line limit, tiny, long; plain text, %s and %d formats) with dumps at random points and at the end. "
                 "A ring case is non-trivial when >= 3 writes succeed and the contents are read back at least once; a bb "
@@ -305,7 +389,12 @@ def run(ctx):
 def replay(ctx, payload):
     model = C.build_model(ID)
     case = payload["script"]
-    if payload.get("stage") == "bb" or case[0].startswith("B "):
+    if payload.get("stage") == "split" or case[0].startswith("o "):
+        bbexe = W.build_bb()
+        t = ["\n".join(case) + "\n"]
+        im, mo = [C.run_cases(bbexe, t)[0]], [C.run_cases(model, t, env={"C11_MODE": "split"})[0]]
+        j = judge_split(case, im[0], mo[0])
+    elif payload.get("stage") == "bb" or case[0].startswith("B "):
         bbexe = W.build_bb()
         im, mo = W.execute_bb([case], bbexe, model)
         j = W.judge_bb(im[0], mo[0])
